@@ -84,4 +84,31 @@ PROPS = {
         'trusted_base': ['IEEE-754 arithmetic of isDistributionSuitable is executed, not reasoned about'],
         'assumptions': ['max < 2^64-1 (the Go loop counter does not wrap)'],
     },
+    'C01': {
+        'lean_targets': ['Cqos.Props.C01'],
+        'theorems': ['Cqos.C01.step_inv', 'Cqos.C01.run_inv', 'Cqos.C01.c01_capacity', 'Cqos.C01.c01_v2',
+                     'Cqos.C01.c01_v1', 'Cqos.C01.c01_simple', 'Cqos.C01.drive_is_run'],
+        'runs': [{'cmd': 'stepper', 'args': ['-family', 'mixed']},
+                 {'cmd': 'stepper', 'args': ['-family', 'faulty']},
+                 {'cmd': 'stepper', 'args': ['-family', 'dynamic']},
+                 {'cmd': 'stepper', 'args': ['-family', 'saturated']}],
+        'monitor_prefix': ['C01'],
+        'level': 'proof',
+        'level_text': ('Lean theorem by induction over ARBITRARY action lists of the scheduler machine (v1 and v2 in one '
+                       'machine; arrivals, closes, releases, Stop, GracefulStop, AddInput/RemoveInput and every select '
+                       'choice are actions): in-flight = delivered - release issued never exceeds H and no unsigned '
+                       'subtraction wraps, for EVERY divider function (faulty ones included, safeDivide is modelled) and '
+                       'every strategic distribution. The machine is tied to the real disciplines by the white-box '
+                       'stepper: real unexported methods called one at a time on generated scripts, state projection '
+                       'compared with the machine after every operation'),
+        'level_note': ('trusted: correspondence by differential stepping (exact equality of actual/tactic/strategic/'
+                       'priorities/drained/output after each op), the hook constructor duplicating New\'s struct literal, '
+                       'Go channels as FIFO queues; unbuffered inputs only in their deterministic states (empty/closed)'),
+        'rule': ('operation scripts (arrive/close/release, calc/fb1/prio/recalc/base/glf/wza, v1: top add/remove/fb/none, stop) '
+                 'generated per family from {Fair,Rate} x {consecutive, skewed, near-equal, random priorities} x {H = n, small, '
+                 'multiple, random} x buffered/unbuffered inputs, release groupings none/one/some/all, fault-injecting dividers; '
+                 'every op is one compared case; distinct = distinct (script prefix) is not measured, distinct request lines are counted'),
+        'trusted_base': ['verif hook steppers (construct the real Discipline without starting main)'],
+        'assumptions': ['handlers release only what they hold (API contract)'],
+    },
 }
